@@ -32,6 +32,8 @@ type Commander struct {
 	lastTXID   *big.Int
 	referencer *Referencer
 	mu         sync.Mutex
+	// appendMu makes transaction id allocation, log chaining and the hand-off to the batcher one atomic step
+	appendMu sync.Mutex
 
 	lastLog *ledger.ChainedLog
 	monitor bus.Monitor
@@ -146,20 +148,20 @@ func (commander *Commander) exec(ctx context.Context, parameters Parameters, scr
 			return nil, nil, NewErrNoPostings()
 		}
 
-		tx := ledger.NewTransaction().
-			WithPostings(result.Postings...).
-			WithMetadata(result.Metadata).
-			WithDate(script.Timestamp).
-			WithID(commander.nextTXID()).
-			WithReference(script.Reference)
+		chainedLog, done, err := executionContext.appendLog(ctx, func() *ledger.Log {
+			tx := ledger.NewTransaction().
+				WithPostings(result.Postings...).
+				WithMetadata(result.Metadata).
+				WithDate(script.Timestamp).
+				WithID(commander.nextTXID()).
+				WithReference(script.Reference)
 
-		log := logComputer(tx, result.AccountMetadata)
-		if parameters.IdempotencyKey != "" {
-			log = log.WithIdempotencyKey(parameters.IdempotencyKey)
-		}
-		verifhook.Yield(ctx, "exec.txbuilt")
-
-		chainedLog, done, err := executionContext.AppendLog(ctx, log)
+			log := logComputer(tx, result.AccountMetadata)
+			if parameters.IdempotencyKey != "" {
+				log = log.WithIdempotencyKey(parameters.IdempotencyKey)
+			}
+			return log
+		})
 		if err != nil {
 			return nil, nil, err
 		}
